@@ -936,6 +936,8 @@ def c14(res, wd):
                         "and allocation only"]
 
 
+FOREIGN_KINDS = ["foreign:SyncRequest", "foreign:SyncReply", "foreign:InputAck", "foreign:QualityReport",
+                 "foreign:QualityReply", "foreign:ChecksumReport", "foreign:KeepAlive", "foreignMagic", "unknownAddr"]
 FORGE_KINDS = ["shortStatus", "negStart", "badPayload", "wrongSizeAll", "wrongSizeFirst", "wrongSizeLast",
                "foreignMagic", "unknownAddr"]
 
@@ -965,6 +967,27 @@ def c08(res, wd):
     ps = [_forge_plan(rng, frames, payloads) for _ in range(n)]
     outs = engines.obs_runs(res, "C08", ps, {"C01", "C03", "C02", "C12", "C06"}, wd, "c08",
                             nontrivial=lambda st, pl: st.get("forgedPackets", 0) >= 5)
+    # connection state: packets of every kind with another session's magic number (and packets from unknown
+    # addresses) arrive from a silent peer's address during a silence around the notify delay / the timeout and
+    # after a death; they are no sign of life, so Monitor.tla's exact timing predicates (interrupted after the
+    # notify delay, resumed only by genuine traffic, disconnected at the timeout) must hold as if they did not exist
+    fps = []
+    for i in range(sizes(res.tier, 24, 150)):
+        pl = _silence_plan(rng, "spec" if i % 4 == 3 else "p2p")
+        pl["forge"] = {"rate": rng.choice([0.3, 0.6, 1.0]), "kinds": FOREIGN_KINDS, "after_sync": True,
+                       "from": [pl["outages"][0]["from"]]}
+        if i % 3 == 0:
+            # the silent side dies instead: the forged packets must not postpone the Disconnected event
+            pl["outages"] = []
+            pl["kills"] = [{"p": 1, "at_frame": rng.randrange(20, 80)}]
+            pl["forge"]["from"] = [1]
+            pl.pop("fault_until", None)
+            pl["frames"] = 100000
+            pl["max_ms"] = 1000 + 3 * pl["cfg"]["timeout"] + 3000
+            pl["after_ms"] = 0
+        fps.append(pl)
+    engines.obs_runs(res, "C08", fps, {"C07", "C12", "C01", "C03", "C06"}, wd, "c08f",
+                     nontrivial=lambda st, pl: st.get("forgedPackets", 0) >= 5)
     # twin: the same players without any forged packet simulate the same confirmed timeline
     pairs = []
     for i, pl in enumerate(ps[:sizes(res.tier, 5, 30)]):
